@@ -21,3 +21,52 @@ Proof.
   destruct (lex_options KWDay (split_on 44 f4)) as [i4|]; cbn [s_min s_hour s_day s_month s_wday]; try reflexivity;
   repeat match goal with |- context [compile_field ?k ?i] => destruct (compile_field k i) end; reflexivity.
 Qed.
+
+(* ---- value bits ------------------------------------------------------------------------------------ *)
+
+Lemma testbit_set b n v : 0 <= n -> 0 <= v ->
+  Z.testbit (Z.lor b (Z.shiftl 1 n)) v = Z.testbit b v || (v =? n).
+Proof.
+  intros Hn Hv. rewrite Z.lor_spec, Z.shiftl_1_l, Z.pow2_bits_eqb by lia.
+  rewrite (Z.eqb_sym n v). reflexivity.
+Qed.
+
+Definition in_prog (x hi step v : Z) : bool := (x <=? v) && (v <=? hi) && ((v - x) mod step =? 0).
+
+Lemma in_prog_step x hi step v : 1 <= step -> x <= hi ->
+  (v =? x) || in_prog (x + step) hi step v = in_prog x hi step v.
+Proof.
+  intros Hs Hx. unfold in_prog.
+  destruct (Z.eq_dec v x) as [->|Hne].
+  - rewrite Z.eqb_refl, Z.sub_diag, Z.mod_0_l by lia. cbn [orb].
+    replace (x <=? x) with true by lia. replace (x <=? hi) with true by lia. reflexivity.
+  - replace (v =? x) with false by lia. cbn [orb].
+    destruct (Z_lt_le_dec v (x + step)) as [Hlt|Hge].
+    + replace (x + step <=? v) with false by lia. cbn [andb].
+      destruct (Z_lt_le_dec v x) as [Hl|Hg].
+      * replace (x <=? v) with false by lia. reflexivity.
+      * replace (x <=? v) with true by lia. rewrite Z.mod_small by lia.
+        replace (v - x =? 0) with false by lia. rewrite andb_false_r. reflexivity.
+    + replace (x + step <=? v) with true by lia. replace (x <=? v) with true by lia.
+      replace (v - x) with (v - (x + step) + 1 * step) by lia. rewrite Z.mod_add by lia. reflexivity.
+Qed.
+
+Lemma loop_bits_spec fuel : forall x hi step acc v,
+  0 <= x -> 1 <= step -> 0 <= v -> hi + 1 - x <= Z.of_nat fuel ->
+  Z.testbit (loop_bits fuel x hi step acc) v = Z.testbit acc v || in_prog x hi step v.
+Proof.
+  induction fuel as [|f IH]; intros x hi step acc v Hx Hs Hv Hf.
+  - cbn [loop_bits]. unfold in_prog.
+    destruct (Z_le_gt_dec x v); [replace (v <=? hi) with false by lia|replace (x <=? v) with false by lia];
+      rewrite ?andb_false_r; cbn [andb]; rewrite orb_false_r; reflexivity.
+  - cbn [loop_bits]. destruct (Z_le_gt_dec x hi) as [Hle|Hgt].
+    + replace (x <=? hi) with true by lia.
+      rewrite IH by lia. rewrite testbit_set by lia. rewrite <- orb_assoc, in_prog_step by lia. reflexivity.
+    + replace (x <=? hi) with false by lia. unfold in_prog.
+      destruct (Z_le_gt_dec x v); [replace (v <=? hi) with false by lia|replace (x <=? v) with false by lia];
+        rewrite ?andb_false_r; cbn [andb]; rewrite orb_false_r; reflexivity.
+Qed.
+
+Lemma range_bits_spec lo hi step acc v : 0 <= lo -> 1 <= step -> 0 <= v ->
+  Z.testbit (range_bits lo hi step acc) v = Z.testbit acc v || in_prog lo hi step v.
+Proof. intros. unfold range_bits. apply loop_bits_spec; lia. Qed.
